@@ -93,14 +93,14 @@ var bytesPool = sync.Pool{}
 
 func (self *Node) MarshalJSON() ([]byte, error) {
 	if self == nil {
-		return bytesNull, nil
+		return []byte("null"), nil
 	}
 
-	// fast path for raw node
+	// fast path for raw node, the caller owns the result: copy the text
 	if self.isRaw() {
 		lock := self.rlock()
 		if self.isRaw() {
-			ret := rt.Str2Mem(self.toString())
+			ret := []byte(self.toString())
 			if lock {
 				self.runlock()
 			}
